@@ -107,7 +107,7 @@ def reraise_control(e):
     """modelx's bare `except:` in _start_exec wraps CrossHair's control-flow BaseExceptions in FormulaError."""
     if isinstance(e, FormulaError):
         orig = mx.get_error()
-        if orig is not None and not isinstance(orig, Exception):
+        if orig is not None and not isinstance(orig, Exception) and not isinstance(orig, Boom):
             raise orig
 
 
@@ -115,6 +115,8 @@ def call(fn, *a, **k):
     """Call into the model; returns ('ok', value) or ('err', original exception type name, exception)."""
     try:
         return ("ok", fn(*a, **k))
+    except Boom as e:           # a BaseException of the harness' own that modelx failed to wrap
+        return ("err", "Boom(unwrapped)", e)
     except FormulaError as e:
         reraise_control(e)
         orig = mx.get_error()
@@ -173,6 +175,10 @@ def close_models():
         except Exception:
             pass
         ctx.models = []
+
+
+class Boom(BaseException):
+    """An exception that is not an Exception subclass (like KeyboardInterrupt) - raised by generated formulas."""
 
 
 def fresh_session():
@@ -290,6 +296,13 @@ def dag_formula(k, shape=0, default=False, fail=None, uncached_read=False, reads
     if fail == "raise":
         lines.append("    if F == %d and FT == t:" % k)
         lines.append("        raise ValueError('boom')")
+    elif fail == "base":
+        lines.append("    if F == %d and FT == t:" % k)
+        lines.append("        raise Boom('not an Exception subclass')")
+    elif fail == "assign":      # the formula stores a value for its own element (allowed) and then fails
+        lines.append("    if F == %d and FT == t:" % k)
+        lines.append("        _space.cells['c%d'][t] = 12345" % k)
+        lines.append("        raise ValueError('boom')")
     elif fail == "zerodiv":
         lines.append("    hit(-1, 1 // (0 if (F == %d and FT == t) else 1))" % k)
     lines.append("    r = v%d + t + %s + g%s" % (k, "Sub.z" if reads_z else "0", " + Sub.zz" if reads_zz else ""))
@@ -341,6 +354,7 @@ class Dag:
             if fail:
                 S.F = -1
                 S.FT = -1
+                m.Boom = Boom
             for k in range(n):
                 setattr(S, "v%d" % k, 0)
                 setattr(S, "T%d" % k, False)
@@ -464,7 +478,7 @@ class Dag:
                 out["p2"] = i
             elif "r = r +" in ln and "t - 1" in ln:
                 out["rec"] = i
-            elif "raise ValueError" in ln or "1 // (0 if" in ln:
+            elif "raise ValueError" in ln or "1 // (0 if" in ln or "raise Boom" in ln:
                 out["fail"] = i
         return out
 
@@ -479,7 +493,7 @@ class Dag:
                 return True
             L = self.lines(k)
             chain.append([k, tt, 0])
-            if kind in ("raise", "zerodiv") and k == F and tt == FT:
+            if kind in ("raise", "zerodiv", "base", "assign") and k == F and tt == FT:
                 chain[-1][2] = L["fail"]
                 return False
             p1, p2, T = self.rp(k)
